@@ -11,18 +11,18 @@ import (
 
 func init() {
 	register(&Property{
-		ID:    "C19",
-		Run:   runC19,
-		Floor: 10,
+		ID:          "C19",
+		Run:         runC19,
+		Floor:       10,
 		Assumptions: []string{"encoding/csv reports malformed records as *csv.ParseError and positions the reader at the next record"},
-		NotDecided: "that converted values equal the record's fields for all inputs; ordering across the two result channels.",
+		NotDecided:  "that converted values equal the record's fields for all inputs; ordering across the two result channels.",
 	})
 	register(&Property{
-		ID:    "C20",
-		Run:   runC20,
-		Floor: 5,
+		ID:          "C20",
+		Run:         runC20,
+		Floor:       5,
 		Assumptions: []string{"the vendored terminal delivers typed and pasted runes to handleKey in order"},
-		NotDecided: "that the split is correct for every statement list (only its structural necessary conditions are decided); line breaks inside literals are replaced by a space by design of the console.",
+		NotDecided:  "that the split is correct for every statement list (only its structural necessary conditions are decided); line breaks inside literals are replaced by a space by design of the console.",
 	})
 }
 
@@ -167,6 +167,36 @@ func runC19(c *Ctx) {
 				ifs, ok := st.(*ast.IfStmt)
 				if !ok || len(ins) == 0 || ifs.End() > ins[0].Pos() {
 					continue
+				}
+				// a rejection path tests an error or a record property and leaves the iteration or reports;
+				// an observation (`if debug { print }`: no error in the condition, nothing sent, falls through) is not one
+				if len(ifs.Body.List) > 0 {
+					mentionsErr := false
+					ast.Inspect(ifs.Cond, func(y ast.Node) bool {
+						if e, ok := y.(ast.Expr); ok {
+							if t := f.TypeOf(e); t != nil && isErrorType(t) {
+								mentionsErr = true
+							}
+						}
+						return true
+					})
+					if ifs.Init != nil {
+						mentionsErr = true
+					}
+					_, endsBr := ifs.Body.List[len(ifs.Body.List)-1].(*ast.BranchStmt)
+					sends := strings.Contains(exprKeyOfBlock(ifs.Body), "<-")
+					usesRecord := false
+					ast.Inspect(ifs.Cond, func(y ast.Node) bool {
+						if call, ok := y.(*ast.CallExpr); ok {
+							if id, ok := call.Fun.(*ast.Ident); ok && id.Name == "len" {
+								usesRecord = true
+							}
+						}
+						return true
+					})
+					if !mentionsErr && !endsBr && !sends && !usesRecord {
+						continue
+					}
 				}
 				n++
 				key := f.Name + "|error-edge#" + itoa(n) + "|" + exprKey(ifs.Cond)
@@ -730,6 +760,17 @@ func runC20(c *Ctx) {
 											continue
 										}
 									}
+								}
+								// a reset of the result slice that does not involve the statements is harmless
+								mentions := false
+								ast.Inspect(rhs, func(z ast.Node) bool {
+									if zi, ok := z.(*ast.Ident); ok && hk.ObjOf(zi) == stmtsObj {
+										mentions = true
+									}
+									return true
+								})
+								if isLine && !mentions {
+									continue
 								}
 								rewritten = as.Pos()
 							}
